@@ -138,6 +138,11 @@ impl TlsClientConfig {
             .as_ref()
             .map(load_certs)
             .unwrap_or_else(|| Ok(vec![]))?;
+        // the public roots are the default for an undefined `ca` only: a configured file that holds no
+        // certificate (empty, a key, not PEM) must not quietly widen the trust to every public CA
+        if let (Some(ca), true) = (self.ca.as_ref(), certs.is_empty()) {
+            return Err(err_msg(format!("no certificate found in {}", ca.display())));
+        }
         if certs.is_empty() {
             ret.add_server_trust_anchors(webpki_roots::TLS_SERVER_ROOTS.0.iter().map(|ta| {
                 OwnedTrustAnchor::from_subject_spki_name_constraints(
